@@ -153,6 +153,8 @@ func repoCorpus() []string {
 }
 
 var builtinCorpus = []string{
+	"SELECT a AS \"select\" FROM t", "SELECT a AS \"Order\", b AS \"group\" FROM t", "SELECT a FROM \"from\"", "SELECT a FROM t AS \"where\"", "SELECT t.\"select\" FROM t", "SELECT \"select\" FROM t",
+	"UPDATE \"table\" SET \"set\" = 1", "INSERT INTO \"into\" (\"values\") VALUES (1)",
 	"SELECT 1",
 	"SELECT a, b AS c, t.d, t.* FROM t WHERE a = 1 AND b <> 'x' OR NOT c",
 	"SELECT DISTINCT a FROM t1, t2 AS u WHERE t1.id = u.id",
